@@ -115,9 +115,8 @@ static double spec_member_energy(int Z, int m)
   return spec_single_energy(Z, m);
 }
 
-LEMMA(lemma_LineEnergy)
+static void check_line_energy(int Z, int line, xrl_error **error)
 {
-  ND_Z(Z); LINE_INPUT(line); ND_ERRSLOT(error);
   int i, d;
   double r;
   if (Z_OK(Z)) {
@@ -193,5 +192,35 @@ LEMMA(lemma_LineEnergy)
     }
   }
   VASSERT(error == NULL || *error == NULL || (*error)->code == XRL_ERROR_INVALID_ARGUMENT, "LineEnergy: error code is INVALID_ARGUMENT");
+}
+
+
+LEMMA(lemma_LineEnergy)
+{
+  ND_Z(Z); LINE_INPUT(line); ND_ERRSLOT(error);
+#if !defined(FIXED_LINE) && defined(OUTSIDE_ONLY)
+  VASSUME(line < SPEC_LINE_MIN || line > LB_LINE);   /* every int outside the macro range; the range itself is enumerated */
+#endif
+  check_line_energy(Z, line, error);
   ERRSLOT_DONE(error);
+}
+
+/* single lines, enumerated with a constant macro value (ENUM_LO..ENUM_HI); group macros inside the block are skipped here
+ * (they have their own lemmas) */
+#ifndef ENUM_LO
+#define ENUM_LO SPEC_LINE_MIN
+#define ENUM_HI (-1)
+#endif
+LEMMA(lemma_LineEnergy_enum)
+{
+  ND_Z(Z); ND_BOOL(with_slot);
+  int line;
+  for (line = ENUM_LO; line <= ENUM_HI; line++) {
+    xrl_error *eo = NULL; xrl_error **error = with_slot ? &eo : NULL;
+    if (IS_GROUP4(line) || doublet_index(line) >= 0 || line == KO_LINE || line == KP_LINE) continue;
+    VCBMC(g_watch = error;)
+    check_line_energy(Z, line, error);
+    VNATIVE(xrl_clear_error(&eo);)
+  }
+  VCANARY("LineEnergy enumeration end");
 }
